@@ -218,6 +218,9 @@ func ruleErrorsLookedAt(r *Report, rule string, pkgFilter func(rel string) bool,
 					}
 				}
 			}
+			for o := range synthNamedResults {
+				outerNamed[o] = true // named results of an expanded helper
+			}
 			if isDeferred {
 				// any store (not only of a call result) into an error variable of the enclosing
 				// function that nobody can observe any more
